@@ -6,7 +6,7 @@ RULE = ("mixes of adopted, service and executed coroutine payloads per flavour n
         "200 ms; every payload records threading.get_ident() and the identity of its running loop / trio token; a "
         "non-atomic enter/exit counter per flavour inside the synchronous sections (widened with time.sleep(0)) would "
         "show two coroutine payloads of one flavour between checkpoints at once; coroutine heartbeats must go on while "
-        "thread payloads block; non-trivial = at least two payloads; distinct = distinct scenario")
+        "thread payloads block; in a third of the scenarios a thread payload registered before start executes a coroutine payload while the runtime is still coming up; non-trivial = at least two payloads; distinct = distinct scenario")
 ASSUMPTIONS = ["an executed threading payload runs in the calling thread by design (ThreadRunner.run_payload): 'thread payloads run outside the two threads' is about adopted / service payloads",
                "framework semantics enter the model as enabling conditions"]
 TRUSTED = ["scenario engine (harness/vh/rt)"]
